@@ -171,6 +171,45 @@ def reuse_pairs(tier, seed):
             out.append((c, tuple(v for p in pts for v in p)))
         return out
 
+    def relative_form_deviation(p_img, p2):
+        """largest per-argument difference between the two outlines in the relative form the library compares
+        (what affine_between promises: every command of the image within the tolerance of the other's)"""
+        from picosvg.svg_reuse import _affine_friendly
+
+        a, b = _affine_friendly(p_img), _affine_friendly(p2)
+        ca, cb = list(a), list(b)  # iterating an SVGPath yields its commands as written (relative here)
+        if len(ca) != len(cb) or any(x[0] != y[0] for x, y in zip(ca, cb)):
+            return float("inf")
+        return max((abs(u - v) for x, y in zip(ca, cb) for u, v in zip(x[1], y[1])), default=0.0)
+
+    def judge(s1, s2, tol, kind, r):
+        """-> Finding or None for a reported transform r"""
+        got = image(s1, tuple(r))
+        worst = max((abs(x - y) for (c1, a1), (c2, a2) in zip(got, s2) for x, y in zip(a1, a2)), default=0.0)
+        if len(got) != len(s2) or any(c1 != c2 for (c1, _), (c2, _) in zip(got, s2)) or worst > tol * 1.5 + 1e-6:
+            rel = relative_form_deviation(SVGPath(d=tostr(got)), SVGPath(d=tostr(s2)))
+            if rel <= tol * 1.5 + 1e-6:
+                # each relative command is within the tolerance, the absolute positions are not: per-segment differences add up along
+                # the outline (recorded finding F21, identified by this signature; anything else is reported below)
+                return Finding(key="reuse.pairs:drift-accumulates-along-outline", text=f"{kind}: reported {tuple(round(v, 4) for v in r)} keeps every relative command within the tolerance {tol} "
+                               f"but the absolute outline ends up {worst:.4g} away from s2; s1={tostr(s1)!r} s2={tostr(s2)!r}", replay=dict(s1=tostr(s1), s2=tostr(s2), tol=tol), confirmed=True)
+            return Finding(key="reuse.pairs:reported-transform-does-not-map", text=f"{kind}: reported {tuple(round(v, 4) for v in r)} maps s1 {worst:.4g} away from s2 (tolerance {tol}; relative form {rel:.4g}); s1={tostr(s1)!r} s2={tostr(s2)!r}",
+                           replay=dict(s1=tostr(s1), s2=tostr(s2), tol=tol), confirmed=True)
+        return None
+
+    def parse(d):
+        return [(c, tuple(a)) for c, a in SVGPath(d=d).as_cmd_seq()]
+
+    # pinned pair (found by the thorough tier): the known drift finding is exercised on every run
+    PINNED_PAIRS = [("M-27,-24 L-13,32 L-5,-8 Q-4,-10,6,-13 L2,-22 L18,-13 Z", "M-19.8,-25.7 L-25.4,28.9 L0.2,-4.7 Q2.2,-6.2,15.4,-5.9 L14.2,-15.2 L29.8,-2.3 Z", 1.0)]
+    for d1, d2, tol in PINNED_PAIRS:
+        res.evaluations += 1
+        r = affine_between(SVGPath(d=d1), SVGPath(d=d2), tol)
+        if r is not None:
+            f = judge(parse(d1), parse(d2), tol, "pinned", r)
+            if f is not None:
+                res.findings.append(f)
+
     for _ in range(n):
         s1 = outline()
         kind = rnd.choice(["translate", "rotate", "scale", "nonuniform", "mirror", "affine", "unrelated", "near-miss"])
@@ -196,12 +235,11 @@ def reuse_pairs(tier, seed):
                 res.findings.append(Finding(key="reuse.pairs:translation-not-found", text=f"exact translation of {tostr(s1)!r} by {M[4:]} not found at tolerance {tol}", replay=dict(s1=tostr(s1), s2=tostr(s2), tol=tol), confirmed=True))
                 break
             continue
-        got = image(s1, tuple(r))
-        worst = max((abs(x - y) for (c1, a1), (c2, a2) in zip(got, s2) for x, y in zip(a1, a2)), default=0.0)
-        if len(got) != len(s2) or any(c1 != c2 for (c1, _), (c2, _) in zip(got, s2)) or worst > tol * 1.5 + 1e-6:
-            res.findings.append(Finding(key="reuse.pairs:reported-transform-does-not-map", text=f"{kind}: reported {tuple(round(v, 4) for v in r)} maps s1 {worst:.4g} away from s2 (tolerance {tol}); s1={tostr(s1)!r} s2={tostr(s2)!r}",
-                                        replay=dict(s1=tostr(s1), s2=tostr(s2), tol=tol), confirmed=True))
-            break
+        f = judge(s1, s2, tol, kind, r)
+        if f is not None and not any(g.key == f.key for g in res.findings):
+            res.findings.append(f)
+            if f.key != "reuse.pairs:drift-accumulates-along-outline":
+                break
     res.samples.append(dict(s1=tostr(s1), s2=tostr(s2), tol=tol, kind=kind))
     res.distinct_nontrivial = len(seen)
     return res
